@@ -107,7 +107,7 @@ def props_of(t):
     return out
 
 
-def backlinks_of(t):
+def backlinks_of(t, for_policy=False):
     """(link, source type) pairs whose stored link can point at an object of type t"""
     out = []
     if t in UNION_TARGETS:
@@ -115,7 +115,9 @@ def backlinks_of(t):
     mine = set([t] + ancestors(t))
     for (src, l) in sorted(STORED_LINKS):
         tgt = OWN_LINKS[src][l][0]
-        if tgt in mine or (tgt in UNION_TARGETS and any(m in mine for m in UNION_TARGETS[tgt])):
+        if tgt in mine or (not for_policy and tgt in UNION_TARGETS and t in UNION_TARGETS[tgt]):
+            # (a backlink over a union-typed link does not resolve on a descendant of a member,
+            # so policies -- which descendants inherit -- never use one)
             out.append((l, src))
     return out
 
@@ -141,7 +143,7 @@ def atom_text(rnd, subj, n, allow_std=False):
         forms.append('link')
     if multi:
         forms.append('mlink')
-    if backlinks_of(subj):
+    if backlinks_of(subj, True):
         forms.append('back')
     forms += ['globalobj', 'aliasobj']
     if allow_std == 'typeof':
@@ -171,7 +173,7 @@ def atom_text(rnd, subj, n, allow_std=False):
     if f == 'mlink':
         return f"exists (select .{rnd.choice(sorted(multi))} filter .name = '{tok}')", tok
     if f == 'back':
-        l, src = rnd.choice(backlinks_of(subj))
+        l, src = rnd.choice(backlinks_of(subj, True))
         return f"exists (select .<{l}[is default::{src}] filter .name = '{tok}')", tok
     u = f'00000000-0000-0000-0000-0000000000{n:02d}'
     std = rnd.choice(['Object', 'BaseObject'])
